@@ -14,12 +14,15 @@ IDENTITY_EQ = {'state', 'fn', 'Thread', 'ThreadEvent', 'LockingDeque', 'Attribut
 
 
 class AliasEnv(dict):
-    """A frame environment in which the sidecar's names for locals resolve to the (renamed) locals of the code."""
-    def __init__(self, base, renaming):
+    """A frame environment that records which names are read (to learn which locals a sidecar invariant mentions)
+    and in which the sidecar's names for locals resolve to the (renamed) locals of the code."""
+    def __init__(self, base, renaming=None):
         dict.__init__(self, base)
-        self._ren = renaming
+        self._ren = renaming or {}
+        self.reads = set()
 
     def _k(self, k):
+        self.reads.add(k)
         return self._ren.get(k, k)
 
     def __getitem__(self, k):
@@ -387,6 +390,22 @@ class Interp:
         else:
             path_for_name, ord_for_name = path, ordinal
         lname = '%s:loop%d' % (path_for_name.split('.', 1)[1], ord_for_name)
+        if not isinstance(env, AliasEnv):
+            env = AliasEnv(env)
+            c.frames[-1].env = env
+        assigned_in_body = _assigned_names(st.body)
+
+        def clauses():
+            # a clause tagged 'if-assigned:<local>' speaks about a loop-carried flag of the code the sidecar was written
+            # for; when the loop no longer assigns that local the clause has nothing to say
+            out = []
+            for nm, f, *tg in spec.invariant(self, env):
+                tags = tg[0] if tg else ()
+                cond = [t.split(':', 1)[1] for t in tags if isinstance(t, str) and t.startswith('if-assigned:')]
+                if any(x not in assigned_in_body for x in cond):
+                    continue
+                out.append((nm, f, tuple(t for t in tags if not (isinstance(t, str) and t.startswith('if-assigned:')))))
+            return out
         it_state = None
         if kind == 'for':
             it_state = B.for_setup(self, st, env)          # evaluates the iterable once; sets env['$k<ord>']
@@ -395,11 +414,51 @@ class Interp:
             env['$it%d' % ordinal] = it_state
         if getattr(spec, 'on_entry', None):
             spec.on_entry(self, env)
-        # 1. invariant on entry
-        for nm, f, *tg in spec.invariant(self, env):
-            c.prove('%s:inv-init/%s' % (lname, nm), f, tags=tg[0] if tg else ())
+        # which locals does the sidecar invariant mention?  A local that is carried from one iteration to the next
+        # (read before it is written) but not mentioned is a flag the sidecar does not know (a refactoring may have
+        # introduced it): the first iteration is then executed as it is (peeled), and from the second iteration on
+        # the local is taken to keep its value -- as an obligation of its own ('auto').
+        env.reads.clear()
+        first = clauses()
+        mentioned = set(env.reads)
+        carried = []
+        if kind == 'while':
+            for nm in sorted(assigned_in_body):
+                if nm in env and not nm.startswith('$') and nm not in mentioned and nm not in spec.locals_kind \
+                        and isinstance(env[nm], (bool, SBool)) and _read_before_write(st, nm) \
+                        and (lname, nm) not in self.w.disabled_auto:
+                    carried.append(nm)
+        if carried:
+            self.w.dropped.add('loop %s: first iteration peeled, locals %s taken as stable from the second iteration on '
+                               '(obligations tagged auto)' % (lname, ', '.join(carried)))
+            cond = self.truth(self.eval(st.test))
+            if not c.branch(cond, 'while%d-first' % ordinal):
+                if getattr(spec, 'on_exit', None):
+                    spec.on_exit(self, env)
+                return
+            try:
+                try:
+                    self.exec_block(st.body)
+                except ContinueSignal:
+                    pass
+            except BreakSignal:
+                if getattr(spec, 'on_exit', None):
+                    spec.on_exit(self, env)
+                return
+            first = clauses()
+        # 1. invariant on entry (after the peeled iteration, if any)
+        for nm, f, tg in first:
+            c.prove('%s:inv-init/%s' % (lname, nm), f, tags=tg)
         # 2. havoc
-        assigned = _assigned_names(st.body)
+        assigned = set(assigned_in_body) - set(carried)
+        stable0 = {nm: env[nm] for nm in carried}
+        # with a peeled first pass, integer ghost counters the loop may change are taken as never falling below what
+        # the first pass left (again as obligations of their own)
+        floor0 = {}
+        if carried:
+            for gname in getattr(spec, 'ghost_modifies', []) or []:
+                if gname in c.ghost and z3.is_int(c.ghost[gname]) and (lname, gname) not in self.w.disabled_auto_ghosts:
+                    floor0[gname] = c.ghost[gname]
         if kind == 'for':
             assigned |= _target_names(st.target)
             assigned.add('$k%d' % ordinal)
@@ -427,8 +486,10 @@ class Interp:
                 c.ghost[g] = c.fresh('g_' + g, c.ghost[g].sort())
         if kind == 'for':
             B.for_havoc(self, st, env, ordinal, it_state)
-        for nm, f, *tg in spec.invariant(self, env):
+        for nm, f, tg in clauses():
             c.assume(f)
+        for gname, v0_ in floor0.items():
+            c.assume(c.ghost[gname] >= v0_)
         if spec.after_havoc:
             spec.after_havoc(self, env)
         v0 = spec.variant(self, env) if spec.variant else None
@@ -465,8 +526,14 @@ class Interp:
         self.check_loop_frame(lname, mods, saved_log, saved_fresh)
         if spec.body_end:
             spec.body_end(self, env)
-        for nm, f, *tg in spec.invariant(self, env):
-            c.prove('%s:inv-preserved/%s' % (lname, nm), f, tags=tg[0] if tg else ())
+        for nm, f, tg in clauses():
+            c.prove('%s:inv-preserved/%s' % (lname, nm), f, tags=tg)
+        for gname, v0_ in floor0.items():
+            c.prove('%s:inv-preserved/auto:%s-never-falls-below-what-the-first-pass-left' % (lname, gname),
+                    c.ghost[gname] >= v0_, tags=('auto',))
+        for nm in carried:
+            c.prove('%s:inv-preserved/auto:%s-keeps-its-value-after-the-first-pass' % (lname, nm),
+                    self.c.to_bool(self.equal(env[nm], stable0[nm])), tags=('auto',))
         if v0 is not None:
             v1 = spec.variant(self, env)
             if isinstance(v0, tuple):          # (condition, expression): a variant claimed only under the condition
@@ -1205,6 +1272,34 @@ def _assigned_names(body):
                     names.add(n.name)
     walk(body)
     return names
+
+
+def _read_before_write(loop, name):
+    """May `name` be read in an iteration before that iteration writes it?  (loop test first, then the body in
+    source order; a write inside a conditional does not count as a write for what follows it)"""
+    def reads(node):
+        return any(isinstance(n, ast.Name) and n.id == name and isinstance(n.ctx, ast.Load) for n in ast.walk(node))
+
+    def writes_unconditionally(st):
+        if isinstance(st, (ast.Assign, ast.AugAssign, ast.AnnAssign)):
+            tg = st.targets if isinstance(st, ast.Assign) else [st.target]
+            return any(isinstance(n, ast.Name) and n.id == name for t in tg for n in ast.walk(t))
+        return False
+
+    if isinstance(loop, ast.While) and reads(loop.test):
+        return True
+    for st in loop.body:
+        if isinstance(st, ast.AugAssign) and reads(st.target):
+            return True
+        if isinstance(st, (ast.Assign, ast.AugAssign, ast.AnnAssign)):
+            if st.value is not None and reads(st.value):
+                return True
+            if writes_unconditionally(st):
+                return False
+            continue
+        if reads(st):
+            return True
+    return False
 
 
 def _target_names(t):
